@@ -8,15 +8,43 @@ UNITS = {
 PROPS = {
     "C13": dict(
         level="exploration",
-        technique="property-based testing (rapid): generator output evaluated by an independent reference FIB (rules by priority -> table -> longest prefix); "
-                  "real Setup/Check/Teardown in private network namespaces judged by kernel route lookups and rule/route/link dump differences",
-        rule="TODO",
-        assumptions=[],
-        level_text="TODO",
-        level_note="TODO",
+        technique="property-based testing (rapid). Tier A: the nic.Conf values returned by the real generate*Cfg functions of all four datapaths "
+                  "are loaded into an independent reference FIB (rules by priority -> table -> longest prefix -> oif/gateway, nic.Setup's ensure/replace semantics) "
+                  "and the routing intent is decided by lookups. Tier B: real Setup/Check/GenericTearDown+Teardown of the policy-route (veth) and exclusive-ENI datapaths "
+                  "in private network namespaces (a veth pair stands in for the ENI), judged by the kernel's own route lookups (RTM_GETROUTE with iif/src/oif) and by "
+                  "differences of rule/route/link dumps around every teardown",
+        rule="Tier A cases: datapath (policy, ipvlan, exclusive, vlan) x family (v4, v6, dual) x trunk x 1..4 pods with 1..2 interfaces each (MultiNetwork, exactly one carries "
+             "DefaultRoute as the daemon guarantees) on 1..2 ENIs (own ENI per interface for exclusive), drawn link indexes (steps up to 70000), addresses in 4- and 16-byte form, "
+             "prefix lengths 8..32/8..128, shared or separate subnets, service CIDRs, 0..3 host-stack CIDRs, 0..3 extra routes per interface with/without gateway. "
+             "Tier B cases: policy or exclusive datapath, family, 1..3 pods on one ENI (exclusive: own ENI stand-in each, optionally a second interface eth1), 2..9 operations "
+             "setup/check/teardown in drawn order incl. teardown twice and teardown without setup, optional decoy rules (same priorities, wider prefixes containing pod addresses), "
+             "TeardownCfg with/without host veth name and ENI index. non-trivial = dual-stack, or MultiNetwork, or >= 2 pods on one ENI, or extra routes (tier B: and at least one setup). "
+             "distinct = distinct scenario hash",
+        assumptions=[
+            "reference FIB semantics (Linux): rules of a family are walked by ascending priority, equal priorities in insertion order; a rule matches on src/dst prefix, iif, oif; "
+            "its table is searched by longest prefix (restricted to the flow's oif when one is bound); no match -> next rule; a rule without selector address is IPv4 unless Rule.Family says otherwise (netlink.RuleAdd); "
+            "a gateway without the onlink flag must be covered by a directly connected route on the same device (IPv6 link-local gateways always are)",
+            "inputs stay inside what the CNI hands to the datapaths: exactly one interface of a pod carries DefaultRoute and it exists (daemon.defaultForNetConf); HostIPSet, GatewayIP and extra routes "
+            "cover exactly the pod's enabled families (utils.GetHostIP(ipv4, ipv6), parseSetupConf); host-stack CIDRs follow the cluster IP stack; all interfaces of a pod use one datapath; "
+            "pod addresses, gateways, node address, service / host-stack / extra-route prefixes and the probe destinations 8.8.8.8 / 2001:4860:4860::8888 are pairwise distinct or disjoint by construction",
+            "no extra routes are generated for the ipvlan datapath: its generator has no notion of them and its only producer (pkg/eni/local.go) never sets any",
+            "policy-route + MultiNetwork (not produced by the daemon): only the outgoing device and table of the per-interface table are checked, not its next hop",
+            "tier B teardown mirrors plugin/terway doCmdDel: utils.GenericTearDown on the pod's namespace, then PolicyRoute.Teardown for the policy-route datapath (the CNI has no per-datapath teardown for exclusive ENI); "
+            "utils.EnsureHostNsConfig runs before every Setup as in doCmdAdd",
+            "kernel-generated IPv6 link-local (fe80::/10) and multicast (ff00::/8) routes are left out of the dumps (they appear asynchronously with DAD)",
+        ],
+        level_text="generated configurations and setup/teardown histories checked against an independent policy-routing evaluator (all four datapaths) and against the running kernel "
+                   "(policy-route and exclusive-ENI datapaths); exploration, not proof",
+        level_note="ipvlan and vlan datapaths are checked through their generators only: their Setup/Teardown bodies (slave creation, tc redirect filters, VLAN tagging, route removal by "
+                   "teardownInitNamespace) cannot execute in this kernel (no ipvlan/vlan/dummy devices; act_vlan missing, so trunk mode is tier A only). The vlan datapath has no host-side link, "
+                   "nothing is asserted for it in the host namespace. Tier A trusts the harness's FIB model and mirrors which generator each Setup applies to which link (read from the Setup bodies). "
+                   "In tier B the ENI stand-in is a veth, so GenericTearDown deletes it instead of moving it back: for exclusive ENI only setup routing and removal of the host-side peer are asserted, "
+                   "not the return of the ENI. tc state (vlan tag filters, priority filters, bandwidth) is not part of the dumps. Packets are not sent; lookups decide.",
         tests=[
             dict(unit="c13pure", test="TestVerifC13Routing", quick=20000, thorough=1000000),
-            dict(unit="c13kernel", test="TestVerifC13Kernel", quick=160, thorough=5000),
+            dict(unit="c13kernel", test="TestVerifC13Kernel", quick=320, thorough=5000, timeout_thorough=1500),
+            dict(unit="c13pure", test="TestVerifC13KnownOifRule", quick=1, thorough=1, shards=1),
+            dict(unit="c13kernel", test="TestVerifC13KnownExclusiveEth1", quick=1, thorough=1, shards=1),
         ],
     ),
 }
